@@ -919,6 +919,20 @@ def run(ctx):
             extra.append({'tree': t, 'toks': toks, 'text': layout(toks, ctx.rng, ctx.rng.choice(['tight', 'plain', 'ws'])), 'mode': 'expr', 'rend': 'drop', 'drop': k, 'style': 'm',
                           'expected': expected(t), 'model': opt_tree(ids, dres), 'frag': True})
     cases += extra
+    # string literals: the model of consume_string decodes the literal body to the same characters (three-way with the parser below)
+    lits, seen_l = [], set()
+    for c in cases:
+        if c['tree'][0] in KINDS:
+            for n in all_nodes(c['tree']):
+                if n[0] == 'atom' and n[1]['k'] == 'str' and 'cps' in n[1] and n[1]['text'] not in seen_l and len(lits) < ctx.pick(400, 5000):
+                    seen_l.add(n[1]['text'])
+                    lits.append(n[1])
+    dec = ctx.run_model(HEADER, ['unescape [%s]' % '; '.join(str(ord(ch)) for ch in a['text'][1:-1]) for a in lits], shard_size=100, tag='str') if lits else []
+    for a, d in zip(lits, dec):
+        got = d.args[0] if (isinstance(d, App) and d.name == 'Some') else None
+        if got != a['cps']:
+            model_failures += 1
+            ctx.corr_broken('unescape', {'literal': a['text']}, a['cps'], got)
     reqs = [{'bind': BIND, 'e': c['text'], 'mode': c['mode']} for c in cases]
     impl = ctx.run_impl('ast', reqs)
     hist = {}
@@ -964,7 +978,7 @@ def run(ctx):
              'postfix neighbours, binders, collections, ranges, unary tests) rendered minimally, fully parenthesised and with each needed pair removed, '
              'layouts tight / single space / Unicode white space / comments / several comments in a row; literals in every spelling; '
              'non-trivial = distinct input texts of non-atomic trees',
-        extra_cov={'renderings': hist, 'model_rendered_fragment_trees': len(owners), 'model_failures': model_failures,
+        extra_cov={'renderings': hist, 'model_rendered_fragment_trees': len(owners), 'model_decoded_string_literals': len(lits), 'model_failures': model_failures,
                    'tables': 'Gen/LalrTables.v regenerated from feel-parser/src/lalr.rs on this run (2312 pairs + 78608 triples re-proved when it changes)'},
         assumptions=['names are single words bound in the parsing scope (multi-word names are C10)',
                      'lexical rules of the text level applied by the renderer: a keyword is followed by white space; `and`/`between` at the top level of a '
